@@ -18,7 +18,7 @@ for l in lines:
 open(p,'w').write('\n'.join(out).rstrip('\n')+'\n')
 PY
       git add "$f";;
-    MANIFEST.json|evidence/C01.json|evidence/C02.json|evidence/C15.json|.gitignore)
+    MANIFEST.json|evidence/*.json|.gitignore)
       git checkout --ours "$f" && git add "$f";;
     *) echo "UNRESOLVED $f";;
   esac
